@@ -46,6 +46,10 @@ def rand_text_spec(rng, profile, max_len=None):
         s = S.sparse_odd_string(rng, 65, 160)
         if rng.random() < 0.5:
             s = s.replace(" ", "_")     # one unbreakable word
+    if s and profile.get("odd_separators", True) and rng.random() < 0.03:
+        # whitespace that occupies no cell and that str.splitlines (but not rich) treats as a line break
+        pos = rng.randint(0, len(s))
+        s = s[:pos] + rng.choice([" ", ""]) + rng.choice(S.SEPARATOR_ODDITIES) + s[pos:]
     overflows = ["fold", "crop", "ellipsis"] + (["ignore"] if profile.get("allow_ignore") else [])
     spec = {"k": "text", "s": s,
             "justify": rng.choice([None, None, "left", "center", "right", "full"]),
@@ -96,6 +100,10 @@ def gen_spec(rng, depth=3, profile=None, inline_ok=True):
         d = _decor(spec["k"], rng)
         if d:
             spec["decor"] = d
+    if profile.get("casts", True) and spec["k"] not in ("pbar", "richcast") and rng.random() < 0.04:
+        # duck-typed renderables: an object that only has __rich__ (cast by the console wherever it meets one), or
+        # only __rich_console__ (no measure method)
+        spec = {"k": rng.choice(["richcast", "richcast", "nomeasure"]), "child": spec}
     solid = spec["k"] == "panel" or (spec["k"] == "text" and spec["s"].strip())
     if profile.get("controls", True) and solid and rng.random() < 0.05:
         # a renderable that emits a control code (bell, cursor visibility, window title) before its content:
@@ -418,6 +426,13 @@ def build(spec):
     raise ValueError(k)
 
 
+def _add_late_column(t, late):
+    c = late["column"]
+    t.add_column(build(c["header"]), build(c["footer"]), justify=c["justify"], overflow=c["overflow"],
+                 ratio=c["ratio"], max_width=c["max_width"], width=c["width"], min_width=c["min_width"],
+                 no_wrap=c["no_wrap"], style=c.get("style"))
+
+
 def build_table(spec):
     from rich.table import Table
     from rich import box
@@ -429,6 +444,9 @@ def build_table(spec):
               row_styles=spec["row_styles"], style=spec.get("style", "none"), **spec.get("decor", {}))
     declared = spec.get("declared", len(spec["columns"]))
     route = _alt(spec, 4) if "declared" not in spec else 3
+    if spec.get("late_column") is not None:
+        # the last column is added with add_column AFTER some rows exist (it is blank for those rows)
+        declared, route = len(spec["columns"]) - 1, 3
     if route == 0 and spec["columns"]:
         # columns handed to the constructor as Column objects (documented: Table(*headers: Union[Column, str]))
         from rich.table import Column
@@ -446,6 +464,7 @@ def build_table(spec):
         for r in spec["rows"]:
             t.add_row(*[build(c) for c in r["cells"]], style=r["style"], end_section=r["end_section"])
         return t
+    late = spec.get("late_column")
     if route == 1:
         # options changed after construction through the documented setters
         t.expand = not spec["expand"]
@@ -456,8 +475,12 @@ def build_table(spec):
         t.add_column(build(c["header"]), build(c["footer"]), justify=c["justify"], overflow=c["overflow"],
                      ratio=c["ratio"], max_width=c["max_width"], width=c["width"], min_width=c["min_width"],
                      no_wrap=c["no_wrap"], style=c.get("style"))
-    for r in spec["rows"]:
+    for i, r in enumerate(spec["rows"]):
+        if late is not None and i == late["after_rows"]:
+            _add_late_column(t, late)
         t.add_row(*[build(c) for c in r["cells"]], style=r["style"], end_section=r["end_section"])
+    if late is not None and late["after_rows"] >= len(spec["rows"]):
+        _add_late_column(t, late)
     if declared < len(spec["columns"]):
         assert len(t.columns) == len(spec["columns"]), "generator: a ragged table must get all its columns from rows"
         for c, col in list(zip(spec["columns"], t.columns))[declared:]:
